@@ -145,3 +145,48 @@ Proof.
   inversion H as [|? ? S F]; subst. constructor; [now apply IH|].
   apply Forall_map. rewrite Forall_map in F. rewrite Forall_forall in *. intros x Hx. cbn. now apply F.
 Qed.
+
+(* ---- indices / index / rindex on arrays: the positions whose window is Compare-equal to the needle ---- *)
+Section Indices.
+  Context (cmp : value -> value -> comparison).
+
+  Definition window_matches (vs xs : list value) (d : nat) : Prop :=
+    d + length xs <= length vs /\ cmp (VArr (firstn (length xs) (skipn d vs))) (VArr xs) = Eq.
+
+  Lemma is_eq_true c : is_eq c = true <-> c = Eq.
+  Proof. destruct c; cbn; split; congruence. Qed.
+
+  Lemma match_positions_In xs : xs <> [] -> forall vs i j,
+    In j (match_positions cmp i vs xs) <-> exists d, j = i + d /\ window_matches vs xs d.
+  Proof.
+    intros Hx. assert (Lx : 1 <= length xs) by (destruct xs; [congruence|cbn; lia]).
+    induction vs as [|v rest IH]; intros i j.
+    - cbn. split; [tauto|]. intros (d & _ & Hd & _). cbn in Hd. lia.
+    - cbn [match_positions]. rewrite in_app_iff, IH. split.
+      + intros [H|(d & -> & Hd & He)].
+        * destruct ((length xs <=? length (v :: rest)) && is_eq (cmp (VArr (firstn (length xs) (v :: rest))) (VArr xs))) eqn:C;
+            [|contradiction].
+          destruct H as [<-|[]]. apply andb_true_iff in C. destruct C as [C1 C2].
+          apply Nat.leb_le in C1. apply is_eq_true in C2. exists 0. split; [lia|]. split; [cbn [length plus] in *; lia|exact C2].
+        * exists (S d). split; [lia|]. split; [cbn [length] in *; lia|exact He].
+      + intros ([|d] & -> & Hd & He).
+        * left. cbn [skipn] in He.
+          replace ((length xs <=? length (v :: rest)) && is_eq (cmp (VArr (firstn (length xs) (v :: rest))) (VArr xs))) with true.
+          -- left. lia.
+          -- symmetry. apply andb_true_iff. split; [apply Nat.leb_le; cbn [length] in *; lia|now apply is_eq_true].
+        * right. exists d. split; [lia|]. split; [cbn [length] in *; lia|exact He].
+  Qed.
+
+  Theorem indices_spec vs xs j :
+    In j (indices cmp vs xs) <-> xs <> [] /\ window_matches vs xs j.
+  Proof.
+    unfold indices. destruct xs as [|x xs]; [cbn; split; [tauto|intros [H _]; congruence]|].
+    rewrite match_positions_In by congruence. split.
+    - intros (d & -> & H). split; [congruence|exact H].
+    - intros [_ H]. exists j. split; [reflexivity|exact H].
+  Qed.
+End Indices.
+
+Theorem indices_compare vs xs j :
+  In j (indices compare vs xs) <-> xs <> [] /\ window_matches compare vs xs j.
+Proof. apply indices_spec. Qed.
